@@ -280,6 +280,8 @@ def _js(x):
 
 
 def run(ctx):
+    run_edge_arity(ctx)
+    run_fgg_copies(ctx)
     ops = op_instances()
     seqs = []
     # exhaustive length 2 over a reduced op list (graph 0 / grammar 0 only) after a fixed prologue
@@ -327,6 +329,93 @@ def run(ctx):
             ctx.disagree('G.storeInv is false on a reachable model state (theorem C16.step_preserves_inv would be contradicted)', case, None, minv)
         if 'F' in mtyp and not mutated_alias:
             ctx.disagree('G.ruleTyping false without mutation of an aliased graph', case, None, mtyp)
+
+
+def run_edge_arity(ctx):
+    """Edge(label, nodes) with a number of nodes different from the label's arity (the nodes present carrying the right
+    labels) must be rejected: otherwise an ill-typed edge can be put into a graph"""
+    for li in range(len(ELS)):
+        ty = ELS[li][1]
+        by_lab = {0: [k for k in range(len(NODES)) if NODE_LAB[k] == 0], 1: [k for k in range(len(NODES)) if NODE_LAB[k] == 1]}
+        full = [by_lab[l][0] for l in ty]
+        variants = [full[:n] for n in range(len(ty))] + [full + [by_lab[l][-1]] for l in (0, 1)] + [full + [by_lab[0][0], by_lab[1][0]]]
+        for ns in variants:
+            case = dict(label=el_code(mk_label(li)), nodes=[enc_node(k) for k in ns])
+            ctx.case(case, ('edge-arity', li, tuple(ns)))
+            ctx.count('edge-arity')
+            try:
+                e = Edge(mk_label(li), [NODES[k] for k in ns], id='arity')
+            except ValueError:
+                continue
+            except Exception as ex:  # noqa
+                ctx.fail(f'Edge() with {len(ns)} nodes for a label of arity {len(ty)} raised {type(ex).__name__}, not ValueError', case, repr(ex), 'ValueError',
+                         tags=['edge-arity', 'other-exception'])
+                continue
+            g = Graph()
+            try:
+                g.add_edge(e)
+                inside = True
+            except Exception:
+                inside = False
+            ctx.fail(f'Edge() accepts {len(ns)} nodes for a label of arity {len(ty)}' + (' and add_edge puts it into a graph' if inside else ''),
+                     case, 'accepted', 'ValueError', tags=['edge-arity', 'accepted'])
+
+
+def run_fgg_copies(ctx):
+    """copies of FGGs / FactorGraphs are equal to and independent of their originals, including domains and factor WEIGHTS:
+    mutations of either side (in place on the weight tensors, through setters, through add/new calls) leave the other unchanged"""
+    import copy as _copy, math as _math, torch as _torch
+    from . import gen as _gen
+    from .c18 import snap_fgg
+    n = 40 if ctx.quick else 600
+    for k in range(n):
+        shape = _gen.random_shape(ctx.rng, recursive=ctx.rng.random() < 0.3, n_nts=(1, 3), rules_per_nt=(1, 2), start_arity=(0, 1),
+                                  weights=lambda r: r.choice([0.5, 1.0, 2.0, 3.0]))
+        fgg, info = _gen.build_fgg(shape, ids=ctx.rng.choice(['implicit', 'explicit']), domain_kind=ctx.rng.choice(['finite', 'range']),
+                                   dtype=_torch.get_default_dtype())
+        for direction in ('mutate-copy', 'mutate-original'):
+            orig = fgg.copy() if direction == 'mutate-original' else fgg
+            cp = orig.copy()
+            case = dict(shape=shape, direction=direction)
+            ctx.case(case, ('fgg-copy', repr(shape), direction), sample_every=40)
+            ctx.count('fgg-copy')
+            if not (cp == orig) or not (orig == cp):
+                ctx.fail('a copy of an FGG is not equal to its original', case, None, None, tags=['copy', 'not-equal'])
+            victim, other = (cp, orig) if direction == 'mutate-copy' else (orig, cp)
+            before = snap_fgg(other)
+            muts = []
+            facs = list(victim.factors.values())
+            if facs:
+                f = ctx.rng.choice(facs)
+                m = ctx.rng.choice(['imul', 'itruediv', 'log_', 'physical-neg_', 'setter'])
+                muts.append(m)
+                try:
+                    if m == 'imul': f.weights *= 3.0
+                    elif m == 'itruediv': f.weights /= 2.0
+                    elif m == 'log_': f.weights.log_()
+                    elif m == 'physical-neg_': f.weights.physical.neg_()
+                    else: f.weights = (f.weights.to_dense() + 1.0)
+                except Exception as ex:  # noqa
+                    muts.append('raised ' + type(ex).__name__)
+            try:
+                nl = NodeLabel('Q%d' % k)
+                victim.add_node_label(nl)
+                victim.new_finite_domain(nl.name, ['u', 'v'])
+                muts.append('new-domain')
+            except Exception as ex:  # noqa
+                muts.append('domain raised ' + type(ex).__name__)
+            try:
+                rhs = Graph()
+                victim.new_rule(victim.start.name, rhs) if victim.start.arity == 0 else None
+                muts.append('new-rule')
+            except Exception as ex:  # noqa
+                muts.append('rule raised ' + type(ex).__name__)
+            after = snap_fgg(other)
+            ctx.evaluations += 1
+            if after != before:
+                from .c18 import diff_snap
+                ctx.fail(f'mutating {"the copy" if direction == "mutate-copy" else "the original"} of an FGG ({", ".join(muts)}) changed the other one: '
+                         + diff_snap(before, after), case, muts, None, tags=['copy', 'not-independent'])
 
 
 def replay(ctx, rep):
